@@ -40,7 +40,7 @@ describe(
         "the backup restores the counter and precedes listening; erase and load together are refused; loaded "
         "points are served from the database without calling the functions again."
     ),
-    decided=["12.1 file closed between exports", "12.2 in memory and pending before export", "12.3 load restores the counter and precedes listening", "12.4 loaded points are memoised"],
+    decided=["12.1 file closed between exports", "12.2 in memory and pending before export", "12.3 load restores the counter and precedes listening", "12.4 loaded points are memoised", "12.7 a driver removes its own listeners only"],
     not_decided=["state of the HDF5 file if the process dies inside a write", "equality of the restarted and uninterrupted histories"],
     trusted=["h5py flushes and closes the file when the context manager exits"],
 )
